@@ -290,7 +290,7 @@ type mCmd struct {
 	args      []int64
 	cmd       interface{}
 	kind      string
-	malformed int // 0 = submittable; 1 = outside it, the process is expected to die; 2 = outside it, unspecified
+	malformed int // 0 = submittable; 1 = outside it, the process is expected to die; 2 = outside it, unspecified; 3 = outside it, no crash, compared with the model
 	// what the monitors need to know about the command
 	tblobs     []uint64    // blobs named by the command
 	ttracts    [][2]uint64 // (blob, index) of the tracts named by ChangeTract / CommitRSChunk
@@ -1037,7 +1037,33 @@ func (g *mGen) malformed(d *mDump) *mCmd {
 			}
 		}
 	}
-	switch g.r.Intn(4) {
+	switch g.r.Intn(6) {
+	case 4: // outside hosts_sub, no crash: a host id of 0 or >= 2^20 in an ExtendBlob (20-bit packing, zero-terminated length)
+		var lb []mBlob
+		for _, b := range d.blobs {
+			if b.del == 0 && b.repl >= 1 {
+				lb = append(lb, b)
+			}
+		}
+		if len(lb) == 0 {
+			return nil
+		}
+		b := lb[g.r.Intn(len(lb))]
+		hs := g.hosts(int(b.repl))
+		hs[g.r.Intn(len(hs))] = core.TractserverID(g.r.PickInt(0, 1<<20, 1<<20+5, 1<<21))
+		args := []int64{int64(b.id), int64(len(b.tracts)), 1}
+		args = append(args, mHostInts(hs)...)
+		return &mCmd{op: 6, args: args, malformed: 3, kind: "ExtendBlob", tblobs: []uint64{b.id},
+			cmd: ExtendBlobCommand{ID: core.BlobID(b.id), FirstTractKey: core.TractKey(len(b.tracts)), Hosts: [][]core.TractserverID{hs}}}
+	case 5: // outside submittable, no crash: CommitRSChunk naming the REPLICATED class
+		if len(live) == 0 {
+			return nil
+		}
+		rd := live[g.r.Intn(len(live))]
+		data := [][]state.EncodedTract{{{ID: core.TractID{Blob: core.BlobID(rd.blob), Index: core.TractKey(rd.idx)}, Offset: 0, Length: 10, NewVersion: int(rd.ver) + 1}}}
+		m := g.mkCommit(2<<30|1, 998000+uint64(g.r.Intn(100)), 0, g.hosts(9), data)
+		m.malformed = 3
+		return m
 	case 0: // a checksum that does not match the one this replica computed at that index
 		if len(g.cks) == 0 {
 			return nil
